@@ -11,6 +11,7 @@ def dispatch (toks : List String) : String :=
   | "c17" :: rest => Pb.Drv.C17.handle rest
   | "c18" :: rest => Pb.Drv.C18.handle rest
   | "c19" :: rest => Pb.Drv.C19.handle rest
+  | "c20" :: rest => Pb.Drv.C20.handle rest
   | "c01" :: rest => Pb.Drv.C01.handle rest
   | "c02" :: rest => Pb.Drv.C02.handle rest
   | "c03" :: rest => Pb.Drv.C03.handle rest
